@@ -131,6 +131,24 @@ def check(ctx):
                             returned = any(o["term"] == m for o in outcomes(f, pv) if o["kind"] in ("call", "value"))
                             if used or returned:
                                 through_try = explicit = True
+                if not through_try:
+                    # `match i.try_into() { Ok(i) => i, Err(_) => return Err(CoseError::OutOfRangeIntegerValue) }`: the Err side of
+                    # the test reaches no success exit and every error it constructs is the out-of-range error
+                    from lib.guards import edge_condition, cond_variants, reach_tracking_failures
+                    outs = outcomes(f, pv)
+                    for d, blk in enumerate(f.blocks):
+                        if blk["cleanup"] or blk["term"]["k"] != "switch":
+                            continue
+                        for s in set(f.cfg.succ[d]):
+                            c = edge_condition(f, pv, d, s)
+                            cv = cond_variants(prog, pv, c) if c else None
+                            if not cv or cv[0] != res or not cv[1] or not cv[1] <= {"Err"}:
+                                continue
+                            seen = reach_tracking_failures(f, s, {bb})
+                            made = [o for o in outs if o["bb"] in seen]
+                            errs = [o for o in made if o["kind"] == "err"]
+                            if errs and all(o["kind"] == "err" and o["inner"] == OUT_OF_RANGE for o in made):
+                                through_try = explicit = True
                 for b2, t2 in f.calls():
                     if callee_path(t2) == "core::ops::try_trait::FromResidual::from_residual":
                         a = pv.operand_term(t2["args"][0], b2, "term")
